@@ -142,6 +142,12 @@ class RealEnv:
         self.outputs.append({'label': label, 'shape': list(a.shape),
                              'lhs': [[v.real, v.imag] if isinstance(v, complex) else v for v in flat]})
 
+    def sos_fact(self, t):
+        pass
+
+    def lemma(self, label, a, b):
+        return self.eq(label, a, b)
+
     def true(self, label, cond):
         if self.tn.is_tensor(cond):
             cond = bool(cond)
